@@ -395,6 +395,13 @@ def set_at(v, keys, new):
     raise TypeError(v)
 
 
+def py_differs(a, b):
+    try:
+        return bool(a != b) and not (a == b)
+    except Exception:
+        return False
+
+
 def corrupt_value(rng, old):
     for _ in range(20):
         c = rng.choice([None, "zz", 77, 7.5, ["q"], {"q": 1}, (5,), "q"])
@@ -556,6 +563,30 @@ def observers_leave_delta_alone(ctx, t1, t2, dd, base_case):
                      else "the payload of a bidirectional delta changed under the read-only call %s()" % name)
 
 
+def flat_rows_probe(ctx, t1, t2, dd):
+    """OBSERVATION only (outside the property's wording: deepdiff documents the flat-row conversion as lossy - one-key dicts
+    and one-item lists are flattened, force=True is required): does the bidirectional delta rebuilt from its own flat rows
+    invert?  Counted in the evidence, never a failure"""
+    from deepdiff import Delta
+    try:
+        rows = Delta(dd, bidirectional=True).to_flat_rows()
+        if not rows:
+            try:
+                Delta(flat_rows_list=rows, bidirectional=True)
+                ctx.count("flat_rows:empty_delta:accepted")
+            except ValueError:
+                ctx.count("flat_rows:empty_delta:rejected_with_ValueError")
+            return
+        f = Delta(flat_rows_list=rows, bidirectional=True, force=True)
+        with DC.Counting() as cnt:
+            fwd = copy.deepcopy(t1) + f
+            back = copy.deepcopy(t2) - f
+        ok = V.typed_eq(fwd, t2) and V.typed_eq(back, t1) and cnt.n == 0
+        ctx.count("flat_rows:round_trip_with_force:" + ("inverts" if ok else "does_not_invert"))
+    except Exception as e:
+        ctx.count("flat_rows:round_trip_with_force:raised_" + type(e).__name__)
+
+
 def gen_single_added(ctx, n):
     """t2 = t1 (a dict somewhere) with one NEW key whose value is a one-element container ({x}, [x], (x,), {k: x}) or an
     atom: the values to_flat_rows flattens"""
@@ -579,7 +610,7 @@ def gen_single_added(ctx, n):
     return out
 
 
-def one_pair(ctx, t1, t2, cases, corr=True, hyp_cases=None, shared=None, all_variants=False):
+def one_pair(ctx, t1, t2, cases, corr=True, hyp_cases=None, shared=None, all_variants=False, observers=False):
     from deepdiff import DeepDiff, Delta
     from deepdiff.delta import DeltaError
     rng = ctx.rng
@@ -644,8 +675,10 @@ def one_pair(ctx, t1, t2, cases, corr=True, hyp_cases=None, shared=None, all_var
             except Exception as e:
                 ctx.fail(dict(base_case, clause=INVERSION, observed="raised %s" % type(e).__name__), "back-and-forth sequence raised")
         # --- read-only conversions leave the delta alone ---
-        if all_variants or rng.random() < 0.35:
+        if all_variants or observers or rng.random() < 0.3:
             observers_leave_delta_alone(ctx, t1, t2, dd, base_case)
+        if guard and rng.random() < 0.25:
+            flat_rows_probe(ctx, t1, t2, dd)
         # --- a directed delta refuses subtraction, whatever the other flags are ---
         refused = {}
         for aiv in (False, True):
@@ -666,6 +699,7 @@ def one_pair(ctx, t1, t2, cases, corr=True, hyp_cases=None, shared=None, all_var
         # --- corruption detection ---
         corrupt_cases = []
         corrupt2 = []
+        n_exact = [0]
         for cat in ("values_changed", "type_changes"):
             for p, ch in d.diff.get(cat, {}).items():
                 if "old_value" not in ch:
@@ -676,6 +710,12 @@ def one_pair(ctx, t1, t2, cases, corr=True, hyp_cases=None, shared=None, all_var
                 except Exception:
                     continue
                 cv = corrupt_value(rng, ch["old_value"])
+                # every other time the corruption is exactly the recorded NEW value (the base already holds the change:
+                # e.g. the delta applied to t2, or to t1 with this field updated) - still != the recorded old value
+                if "new_value" in ch and n_exact[0] % 2 == 0 and py_differs(ch["new_value"], ch["old_value"]):
+                    cv = copy.deepcopy(ch["new_value"])
+                    ctx.count("corruptions:to_the_recorded_new_value")
+                n_exact[0] += 1
                 try:
                     base = set_at(copy.deepcopy(t1), keys, cv)
                 except Exception:
@@ -721,7 +761,11 @@ def one_pair(ctx, t1, t2, cases, corr=True, hyp_cases=None, shared=None, all_var
                 try:
                     keys2 = py_path(DC.parse_pathc(ch["new_path"])) if ch.get("new_path") else py_path(DC.parse_pathc(p))
                     get_at(t2, keys2)
-                    base2 = set_at(copy.deepcopy(t2), keys2, corrupt_value(rng, ch["new_value"]))
+                    cv2 = corrupt_value(rng, ch["new_value"])
+                    if not sub_corrupt and py_differs(ch["old_value"], ch["new_value"]):
+                        cv2 = copy.deepcopy(ch["old_value"])        # the base already holds the OLD value at that location
+                        ctx.count("corruptions_t2_side:to_the_recorded_old_value")
+                    base2 = set_at(copy.deepcopy(t2), keys2, cv2)
                 except Exception:
                     continue
                 ctx.count("corruptions_t2_side")
@@ -942,13 +986,14 @@ def run(ctx):
     pairs = c01.gen_random(ctx, 1700 if ctx.thorough else 250)
     pairs += gen_clash(ctx, 120 if ctx.thorough else 24)
     pairs += gen_dict_removed(ctx, 80 if ctx.thorough else 16)
-    pairs += gen_single_added(ctx, 60 if ctx.thorough else 12)
+    single = gen_single_added(ctx, 60 if ctx.thorough else 12)
+    pairs += single
     pairs += gen_reordered(ctx, pairs, 120 if ctx.thorough else 24)
     for t1, t2 in pairs:
         mode = None
         if ctx.rng.random() < 0.13 and not DC.has_container_in_tuple(t1) and not DC.has_container_in_tuple(t2):
             t1, t2, mode = with_sharing(ctx, t1, t2)
-        one_pair(ctx, t1, t2, cases, hyp_cases=hyp_cases, shared=mode)
+        one_pair(ctx, t1, t2, cases, hyp_cases=hyp_cases, shared=mode, observers=any(t1 is a for a, _b in single))
     doc_cases(ctx, cases)
     for c in cases[:3]:
         ctx.sample(c[2])
